@@ -12,15 +12,18 @@ def Inv (s : St) : Prop :=
   -- status vs. stopper pc
   (1 ≤ s.spc → s.spc ≤ 6 → s.status = statusStopping) ∧
   (7 ≤ s.spc → s.status = statusOffline) ∧
-  (s.spc = 0 → s.status = statusOffline ∨ s.status = statusStarting ∨ s.status = statusOnline) ∧
+  (s.spc = 0 → s.status = statusDead ∨ s.status = statusPreparing ∨ s.status = statusOffline ∨
+      s.status = statusStarting ∨ s.status = statusOnline) ∧
   -- the stop flag is set exactly from the stopper's flag.Set until the restart
   (3 ≤ s.spc → s.flag = 1) ∧ (s.spc ≤ 2 → s.flag = 0) ∧
   -- the context is cancelled from the stopper's cancel until the restart
   (4 ≤ s.spc → s.ctx = 1) ∧
+  -- … and live otherwise: nothing but the stopper's cancel (and the `start()` that replaces it) cancels `m.Ctx`
+  (s.spc ≤ 3 → s.ctx = 0) ∧
   -- single close
   s.k7 + s.closed ≤ 1 ∧ (s.completed = 0 → s.k7 = 0 ∧ s.closed = 0) ∧ s.dbl = 0 ∧
   -- a control function goroutine is alive only while starting or after the stopper started the stop routine
-  (s.fnpc = 1 ∨ s.fnpc = 2 → s.status = statusStarting ∨ 5 ≤ s.spc) ∧
+  (s.fnpc = 1 ∨ s.fnpc = 2 → s.status = statusStarting ∨ s.status = statusPreparing ∨ 5 ≤ s.spc) ∧
   -- the control flag during the stopper's prefix
   (1 ≤ s.spc → s.spc ≤ 4 → s.fnpc = 0 ∨ s.fnpc = 3) ∧
   (2 ≤ s.spc → s.spc ≤ 4 → s.ctrl = 1) ∧
@@ -43,9 +46,15 @@ theorem inv_init : Inv init := by
   unfold Inv init; simp
 
 macro "inv_step" hs:ident : tactic =>
-  `(tactic| (unfold Inv at *; simp only [step] at $hs:ident; (repeat' split at $hs:ident) <;> cases $hs:ident <;>
-      (try dsimp only) <;> and_intros <;> grind (splits := 14)))
+  `(tactic| (unfold Inv at *
+             simp only [step] at $hs:ident
+             try simp only [startCtx, startOps, List.foldl, applyStartOp, Nat.succ_ne_zero, if_false] at $hs:ident
+             (repeat' split at $hs:ident) <;> cases $hs:ident <;>
+               (try dsimp only) <;> and_intros <;> grind (splits := 14)))
 
+theorem inv_prepBegin {s s'} (h : Inv s) (hs : step s .prepBegin = some s') : Inv s' := by inv_step hs
+theorem inv_prepDone {s s'} (h : Inv s) (hs : step s .prepDone = some s') : Inv s' := by inv_step hs
+theorem inv_startFail {s s'} (h : Inv s) (hs : step s .startFail = some s') : Inv s' := by inv_step hs
 theorem inv_startBegin {s s'} (h : Inv s) (hs : step s .startBegin = some s') : Inv s' := by inv_step hs
 theorem inv_ctrlSet {s s'} (h : Inv s) (hs : step s .ctrlSet = some s') : Inv s' := by inv_step hs
 theorem inv_ctrlUnsetNil {s s'} (h : Inv s) (hs : step s .ctrlUnsetNil = some s') : Inv s' := by inv_step hs
@@ -63,7 +72,8 @@ theorem inv_sOffline {s s'} (h : Inv s) (hs : step s .sOffline = some s') : Inv 
 theorem inv_sReport {s s'} (h : Inv s) (hs : step s .sReport = some s') : Inv s' := by inv_step hs
 theorem inv_inc {s s' k} (h : Inv s) (hs : step s (.inc k) = some s') : Inv s' := by
   cases k <;> inv_step hs
-theorem inv_workEnter {s s' c} (h : Inv s) (hs : step s (.workEnter c) = some s') : Inv s' := by inv_step hs
+theorem inv_workEnter {s s' g c} (h : Inv s) (hs : step s (.workEnter g c) = some s') : Inv s' := by inv_step hs
+theorem inv_ctxObs {s s' g c} (h : Inv s) (hs : step s (.ctxObs g c) = some s') : Inv s' := by inv_step hs
 theorem inv_gate {s s' c} (h : Inv s) (hs : step s (.gate c) = some s') : Inv s' := by inv_step hs
 theorem inv_dec {s s' k o} (h : Inv s) (hs : step s (.dec k o) = some s') : Inv s' := by
   cases k <;> cases o <;> inv_step hs
@@ -91,6 +101,9 @@ theorem inv_swExit {s s' o} (h : Inv s) (hs : step s (.swExit o) = some s') : In
 
 theorem inv_step {s s' a} (h : Inv s) (hs : step s a = some s') : Inv s' := by
   cases a with
+  | prepBegin => exact inv_prepBegin h hs
+  | prepDone => exact inv_prepDone h hs
+  | startFail => exact inv_startFail h hs
   | startBegin => exact inv_startBegin h hs
   | ctrlSet => exact inv_ctrlSet h hs
   | ctrlUnsetNil => exact inv_ctrlUnsetNil h hs
@@ -107,7 +120,8 @@ theorem inv_step {s s' a} (h : Inv s) (hs : step s a = some s') : Inv s' := by
   | sOffline => exact inv_sOffline h hs
   | sReport => exact inv_sReport h hs
   | inc k => exact inv_inc h hs
-  | workEnter c => exact inv_workEnter h hs
+  | workEnter g c => exact inv_workEnter h hs
+  | ctxObs g c => exact inv_ctxObs h hs
   | gate c => exact inv_gate h hs
   | dec k o => exact inv_dec h hs
   | cFast o => exact inv_cFast h hs
@@ -128,6 +142,38 @@ theorem inv_reach {s} (h : Reach s) : Inv s := by
   induction h with
   | init => exact inv_init
   | step _ hs ih => exact inv_step ih hs
+
+/-! ## contexts: no context is ever replaced while it is live -/
+
+/-- `start()` cancels the current context before it installs a fresh one, and nothing else replaces `m.Ctx`:
+    the list of contexts that were replaced while live stays empty. -/
+theorem oldLive_step {s s' : St} {a : Act} (h : s.oldLive = []) (hs : step s a = some s') : s'.oldLive = [] := by
+  cases a with
+  | startBegin =>
+    simp only [step] at hs
+    simp only [startCtx, startOps, List.foldl, applyStartOp, Nat.succ_ne_zero, if_false] at hs
+    (repeat' split at hs) <;> cases hs <;> exact h
+  | inc k => cases k <;> simp only [step] at hs <;> (repeat' split at hs) <;> cases hs <;> exact h
+  | dec k o => cases k <;> cases o <;> simp only [step] at hs <;> (repeat' split at hs) <;> cases hs <;> exact h
+  | cFast o => cases o <;> simp only [step] at hs <;> (repeat' split at hs) <;> cases hs <;> exact h
+  | cFlag o => cases o <;> simp only [step] at hs <;> (repeat' split at hs) <;> cases hs <;> exact h
+  | cCtrl o => cases o <;> simp only [step] at hs <;> (repeat' split at hs) <;> cases hs <;> exact h
+  | cW o => cases o <;> simp only [step] at hs <;> (repeat' split at hs) <;> cases hs <;> exact h
+  | cT o => cases o <;> simp only [step] at hs <;> (repeat' split at hs) <;> cases hs <;> exact h
+  | cM o => cases o <;> simp only [step] at hs <;> (repeat' split at hs) <;> cases hs <;> exact h
+  | cCas o => cases o <;> simp only [step] at hs <;> (repeat' split at hs) <;> cases hs <;> exact h
+  | swExit o => cases o <;> simp only [step] at hs <;> (repeat' split at hs) <;> cases hs <;> exact h
+  | _ => simp only [step] at hs; (repeat' split at hs) <;> cases hs <;> exact h
+
+theorem oldLive_reach {s} (h : Reach s) : s.oldLive = [] := by
+  induction h with
+  | init => rfl
+  | step _ hs ih => exact oldLive_step ih hs
+
+/-- … hence every context other than the current one is cancelled -/
+theorem genCancelled_of_oldLive_nil {s : St} (h : s.oldLive = []) (g : Nat) (hg : g ≠ s.gen) :
+    s.genCancelled g = true := by
+  simp [St.genCancelled, hg, h]
 
 /-! ## measure for the check steps -/
 
@@ -191,6 +237,10 @@ theorem active_other {s s' : St} {a : Act} (hs : step s a = some s') (h1 : a ≠
   | cCas o => cases o <;> simp only [step] at hs <;> (repeat' split at hs) <;> cases hs <;> simp [St.active]
   | cFast o => cases o <;> simp only [step] at hs <;> (repeat' split at hs) <;> cases hs <;> simp [St.active]
   | swExit o => cases o <;> simp only [step] at hs <;> (repeat' split at hs) <;> cases hs <;> simp [St.active]
+  | startBegin =>
+    simp only [step] at hs
+    simp only [startCtx, startOps, List.foldl, applyStartOp] at hs
+    (repeat' split at hs) <;> cases hs <;> simp only [St.active] <;> grind
   | _ =>
     simp only [step] at hs
     (repeat' split at hs) <;> cases hs <;> simp only [St.active] <;> grind
